@@ -37,6 +37,12 @@ func GenConnScript(t *rapid.T) ConnScript {
 		s.Classes = append(s.Classes, "connection-header-names-fingerprint-headers")
 	}
 	s.NReq = rapid.IntRange(1, 3).Draw(t, "nreq")
+	if rapid.IntRange(0, 3).Draw(t, "burst") == 0 {
+		// (takes effect on HTTP/2 connections only)
+		s.Burst = true
+		s.NReq = rapid.IntRange(2, 8).Draw(t, "burstN")
+		s.Classes = append(s.Classes, "first-flight-of-several-streams")
+	}
 	s.Custom = rapid.Bool().Draw(t, "custom")
 	if s.Custom {
 		s.Classes = append(s.Classes, "injectors:default+custom")
